@@ -11,6 +11,7 @@ import (
 	"path/filepath"
 
 	api "k8s.io/api/core/v1"
+	discoveryv1 "k8s.io/api/discovery/v1"
 	networking "k8s.io/api/networking/v1"
 	"k8s.io/apimachinery/pkg/util/intstr"
 	"sigs.k8s.io/controller-runtime/pkg/client"
@@ -177,6 +178,54 @@ func writeHandMade(dir string) {
 			note: "hand made: HTTPRoutes and TCPRoutes created in the same second (apps/web, billing/api, a/bc, ab/c ...) claim the same hostname + path + match / the same TCP listener through two gateways: creation time then namespace/name must decide"}
 		b, _ := json.MarshalIndent(map[string]interface{}{"input": c.encode()}, "", " ")
 		if err := os.WriteFile(filepath.Join(dir, "17-gateway-routes-same-second.json"), b, 0o644); err != nil {
+			panic(err)
+		}
+	}
+	// (i) EndpointSlices: one address listed by two slices with different readiness
+	for _, drain := range []bool{false, true} {
+		svc := world.Service("ns1", "echo", world.SvcPort{Name: "http", Port: 80, TargetPort: intstr.FromInt(8080)},
+			world.SvcPort{Name: "admin", Port: 9000, TargetPort: intstr.FromInt(9100)})
+		ing := world.Ingress("ns1", "ing1", 10, world.IngRule{Host: "a.example", Paths: []world.IngPath{{Path: "/", Type: "Prefix", Service: "echo", PortNum: 80}}})
+		objs := []client.Object{svc, ing}
+		tcp := api.ProtocolTCP
+		mk := func(name string, stamp int, eps ...[2]string) {
+			sl := &discoveryv1.EndpointSlice{}
+			sl.Namespace, sl.Name = "ns1", name
+			sl.Labels = map[string]string{"kubernetes.io/service-name": "echo"}
+			sl.AddressType = discoveryv1.AddressTypeIPv4
+			sl.CreationTimestamp = world.Stamp(stamp)
+			hn, an := "http", "admin"
+			hp, ap := int32(8080), int32(9100)
+			sl.Ports = []discoveryv1.EndpointPort{{Name: &hn, Port: &hp, Protocol: &tcp}, {Name: &an, Port: &ap, Protocol: &tcp}}
+			for _, e := range eps {
+				ep := discoveryv1.Endpoint{Addresses: []string{e[0]}}
+				switch e[1] {
+				case "ready":
+					t := true
+					ep.Conditions.Ready = &t
+				case "notready":
+					f := false
+					ep.Conditions.Ready = &f
+				}
+				sl.Endpoints = append(sl.Endpoints, ep)
+			}
+			objs = append(objs, sl)
+		}
+		mk("echo-zzzzz", 30, [2]string{"172.17.0.11", "ready"}, [2]string{"172.17.0.12", "notready"}, [2]string{"172.17.0.14", "notready"})
+		mk("echo-bbbbb", 31, [2]string{"172.17.0.12", "ready"}, [2]string{"172.17.0.13", "ready"}, [2]string{"172.17.0.15", ""})
+		mk("echo-aaaaa", 32, [2]string{"172.17.0.14", "ready"}, [2]string{"172.17.0.15", "notready"}, [2]string{"172.17.0.11", "ready"})
+		name := "18-endpointslices-duplicate-address"
+		if drain {
+			name = "19-endpointslices-duplicate-address-drain"
+			cm := &api.ConfigMap{}
+			cm.Namespace, cm.Name = "ingress-controller", "haproxy-ingress"
+			cm.Data = map[string]string{"drain-support": "true"}
+			objs = append(objs, cm)
+		}
+		c := ocase{objs: c06.Stamp(objs), opts: c06.Opts{WatchWithoutClass: true, EndpointSlices: true}, runs: 10,
+			note: "hand made: --enable-endpointslices-api, service ns1/echo with three slices that list 172.17.0.12, .14 and .15 twice with different ready conditions (and .11 twice ready): the servers must not depend on the order of the slice list"}
+		b, _ := json.MarshalIndent(map[string]interface{}{"input": c.encode()}, "", " ")
+		if err := os.WriteFile(filepath.Join(dir, name+".json"), b, 0o644); err != nil {
 			panic(err)
 		}
 	}
